@@ -255,7 +255,7 @@ _shrink_uamiv = shrink
 
 
 def shrink(case):  # noqa: F811
-    if case['kind'].startswith('met-') or MC.is_lb(case):
+    if case['kind'].startswith('met-') or MC.is_lb(case) or MC.is_layered(case):
         c = case['content']
         if len(c['steps']) > 1:
             yield dict(case, content=dict(c, steps=c['steps'][:-1]))
